@@ -76,6 +76,10 @@ def machine_block(case_text, trace_text):
             emit("move %d PutBase" % w, i)
         if k == "E" and words[0] == "sched.run":
             emit("move %d RunHand" % w, i)
+        if k == "E" and words[0] == "ws.pop":            # wsapi pop by a running thread (logged before the call)
+            emit("autopop %d" % w, i)
+        if k == "E" and words[0] == "ws.pass":           # wsapi pass of the popped thread (logged before the call)
+            emit("passhand %d %s %s" % (w, words[1], words[2]), i)
         # ---- what precedes this worker's next line
         j = nxt.get(i)
         if j is None:
